@@ -9,17 +9,21 @@
 
       - instance [Rar]    : Coq real numbers, weight [Rpower (1/10) (t/15)]  -> theorems
                             (EstimatorProofs.v, EstimatorBarProofs.v)
-      - instance [PF.ar]  : binary64 via Coq primitive floats, [powf] supplied as data  -> correspondence
       - instance [FL.ar]  : binary64 via Flocq (pure Gallina), [powf] supplied as data  -> cross-check
-    The two binary64 instances and the correspondence checker [est_check] live in
-    EstimatorFloat.v, so that the theorems (props/C09.v) do not load Coq's primitive floats /
-    integers at all (coqchk lists those primitives as axioms of the context).
+                            of the correspondence + the binary64 theorems (EstimatorFloatProofs.v)
+      - instance [PF.ar]  : binary64 via Coq primitive floats, [powf] supplied as data  -> correspondence
+    [PF] and the correspondence checker [est_check] live in EstimatorFloat.v, so that the theorems
+    (props/C09.v) do not load Coq's primitive floats / integers at all (coqchk lists those
+    primitives as axioms of the context); [FL] is pure Gallina and lives here.
+
+    The last part of the file is the VOCABULARY of the statements in props/C09.v (weight function,
+    estimator events, histories, hypotheses such as [hist_ok], [segs_ok], [no_wrap]).
 
     Definitions only; no proofs in this file. *)
 From IndModel Require Export Base.
 From IndGen Require Import Constants.
 From Coq Require Import Reals.
-From Flocq Require Core.Raux.
+From Flocq Require Core.Raux IEEE754.BinarySingleNaN IEEE754.Binary IEEE754.Bits.
 Open Scope N_scope.
 
 (** * Arithmetic interface: what the Rust code does with f64 *)
@@ -274,3 +278,234 @@ Definition Rar : arith := {|
   trunc := fun x => IZR (Flocq.Core.Raux.Ztrunc x);
   cast := R_cast
 |}.
+
+
+(** * Instance FL: binary64 via Flocq (pure Gallina).  [powf] is DATA: a function [F -> F]; the
+    correspondence instantiates it with a table (exponent bits -> result bits) filled by the
+    harness with what [0.1_f64.powf(x)] returned on this machine.  A missing entry yields -1.0,
+    which no genuine weight can be, so the comparison fails loudly. *)
+Definition NAN_BITS : N := 9221120237041090560.       (* 0x7FF8_0000_0000_0000, canonical quiet NaN *)
+Fixpoint table_find (k : N) (t : list (N * N)) : option N :=
+  match t with
+  | [] => None
+  | (a, w) :: r => if a =? k then Some w else table_find k r
+  end.
+
+Module FL.
+  Import Flocq.IEEE754.BinarySingleNaN.
+  Definition F := binary_float 53 1024.
+  Definition Hp : Flocq.Core.FLX.Prec_gt_0 53 := eq_refl.
+  Definition Hm : Prec_lt_emax 53 1024 := eq_refl.
+  Definition of_Z (z : Z) (szero : bool) : F :=
+    binary_normalize 53 1024 Hp Hm mode_NE z 0 szero.
+  Definition of_bits (b : N) : F :=
+    Flocq.IEEE754.Binary.B2BSN 53 1024 (Flocq.IEEE754.Bits.b64_of_bits (Z.of_N b)).
+  Definition to_bits (x : F) : N :=
+    if is_nan x then NAN_BITS
+    else Z.to_N (Flocq.IEEE754.Bits.bits_of_b64
+                   (Flocq.IEEE754.Binary.BSN2B 53 1024 Flocq.IEEE754.Bits.default_nan_pl64 x)).
+  Definition ftrunc (x : F) : F :=
+    match x with
+    | B754_finite s m e _ => if (0 <=? e)%Z then x else of_Z (Btrunc x) s
+    | _ => x
+    end.
+  (* Rust float->unsigned `as`: NaN -> 0, negative -> 0, too large / +inf -> MAX, else truncate *)
+  Definition fcast (max : N) (x : F) : N :=
+    match x with
+    | B754_nan => 0
+    | B754_zero _ => 0
+    | B754_infinity s => if s then 0 else max
+    | B754_finite s _ _ _ => if s then 0 else N.min max (Z.to_N (Btrunc x))
+    end.
+  Definition fis_zero (x : F) : bool := match x with B754_zero _ => true | _ => false end.
+  Definition minus_one : F := of_Z (-1) false.
+  (** the arithmetic with an arbitrary [powf] *)
+  Definition arp (p : F -> F) : arith := {|
+    T := F;
+    of_int := fun n => of_Z (Z.of_N n) false;
+    add := @Bplus 53 1024 Hp Hm mode_NE; sub := @Bminus 53 1024 Hp Hm mode_NE;
+    mul := @Bmult 53 1024 Hp Hm mode_NE; div := @Bdiv 53 1024 Hp Hm mode_NE;
+    pow_base := p;
+    is_zero := fis_zero;
+    trunc := ftrunc;
+    cast := fcast
+  |}.
+  Definition fpow (tbl : list (N * N)) (x : F) : F :=
+    match table_find (to_bits x) tbl with Some w => of_bits w | None => minus_one end.
+  Definition ar (tbl : list (N * N)) : arith := arp (fpow tbl).
+End FL.
+
+(** ** What a run observes, as bit patterns (used by the correspondence check [est_check] in
+    EstimatorFloat.v and by the binary64 statements of props/C09.v).
+    an observation = (per_sec bits (NaN canonical), eta ns, duration ns, elapsed ns);
+    [None] for eta/duration = the call panicked. *)
+Definition obs_bits : Type := (N * option N * option N * N)%type.
+
+Definition obs_eqb (a b : obs_bits) : bool :=
+  let '(p1, e1, d1, l1) := a in
+  let '(p2, e2, d2, l2) := b in
+  (p1 =? p2) && option_eqb N.eqb e1 e2 && option_eqb N.eqb d1 d2 && (l1 =? l2).
+
+Definition run_obs (A : arith) (to_bits : T A -> N) (len0 : option N) (t0 : N) (ops : list eop)
+  : list obs_bits :=
+  let '(_, _, os) := bar_run A ops t0 (bar_new A len0 t0) in
+  map (fun o : obs A => let '(p, e, d, l) := o in (to_bits p, e, d, l)) os.
+
+(** sanity of the supplied powf data: 0.1^x in [0,1] for x >= 0, = 1 at x = 0 and < 1 for
+    every positive exponent that occurred (this is the float-level counterpart of the
+    "denominator 1 - W(t) > 0" theorem) *)
+Definition ONE_BITS : N := 4607182418800017408.   (* 1.0 *)
+Definition INF_BITS : N := 9218868437227405312.   (* +inf; larger patterns are NaN or negative *)
+Definition table_ok (t : list (N * N)) : bool :=
+  forallb (fun aw : N * N => let '(a, w) := aw in
+     (a <=? INF_BITS) && (w <=? ONE_BITS) && (if a =? 0 then w =? ONE_BITS else w <? ONE_BITS)) t.
+
+(** calls that restart the estimator AND are named by the property as "reset" *)
+Definition is_reset_op (o : eop) : bool :=
+  match o with ResetEta | ResetElapsed | ResetAll => true | _ => false end.
+
+
+(** * Vocabulary of the statements in props/C09.v (definitions only; the lemmas about them are in
+    proofs/EstimatorProofs.v and proofs/EstimatorBarProofs.v) *)
+Local Open Scope R_scope.
+
+(** the weight function W(t) = (1/10)^(t/15), t in seconds (state.rs:676-679 over R) *)
+Definition W (t : R) : R := Rpower (1 / 10) (t / 15).
+
+(** seconds of a duration given in nanoseconds *)
+Definition secs (d : N) : R := IZR (Z.of_N d) / 1000000000.
+
+(** the rate of the segment a record would add *)
+Definition seg_rate (e : est R) (new now : N) : R :=
+  IZR (Z.of_N (new - prev_steps e)) / secs (now - prev_time e).
+
+(** ** Histories at the level of the estimator *)
+Inductive ev : Type :=
+| ERec (new now : N)     (* Estimator::record(new, now) *)
+| ERst (now pos : N).    (* BarState::reset: est.reset(now); est.prev_steps = pos *)
+
+Definition ev_time (x : ev) : N := match x with ERec _ t => t | ERst t _ => t end.
+Definition ev_pos (x : ev) : N := match x with ERec p _ => p | ERst _ p => p end.
+Definition est_ev (x : ev) (e : est R) : est R :=
+  match x with
+  | ERec new now => est_record Rar new now e
+  | ERst now pos => bar_reset_est Rar now pos e
+  end.
+Fixpoint est_run (evs : list ev) (e : est R) : est R :=
+  match evs with [] => e | x :: r => est_run r (est_ev x e) end.
+
+(** monotonic clock: no call carries an instant before the estimator's last sample / restart *)
+Fixpoint hist_ok (evs : list ev) (e : est R) : Prop :=
+  match evs with
+  | [] => True
+  | x :: r => (prev_time e <= ev_time x)%N /\ hist_ok r (est_ev x e)
+  end.
+
+(** every segment the estimator accepts has a rate satisfying P *)
+Fixpoint segs_ok (P : R -> Prop) (evs : list ev) (e : est R) : Prop :=
+  match evs with
+  | [] => True
+  | x :: r =>
+      match x with
+      | ERec new now => (prev_steps e < new)%N -> (prev_time e < now)%N -> P (seg_rate e new now)
+      | ERst _ _ => True
+      end /\ segs_ok P r (est_ev x e)
+  end.
+
+Definition wf (e : est R) : Prop := (start_time e <= prev_time e)%N.
+(** normaliser at the last sample: 1 - W(prev_time - start_time) *)
+Definition Np (e : est R) : R := 1 - W (secs (prev_time e - start_time e)).
+Definition J_nonneg (e : est R) : Prop := 0 <= sm e /\ 0 <= dsm e.
+(** the state steady progress at rate r leaves *)
+Definition J_steady (r : R) (e : est R) : Prop := sm e = r * Np e /\ dsm e = r * Np e.
+
+(** steps_per_second over R as a function of the two averages, the stall weight w = W(now -
+    last sample) and the normaliser n = 1 - W(now - restart)  (state.rs:534-536) *)
+Definition sps_R (s d : R) (w n : R) : R := (d * w + s * w / n * (1 - w)) / n.
+
+(** the rate reported x SECONDS (a real number) into a stall, i.e. x seconds after the last
+    accepted sample: [est_sps Rar e now = stall_rate e (secs (now - prev_time e))] *)
+Definition stall_rate (e : est R) (x : R) : R :=
+  sps_R (sm e) (dsm e) (W x) (1 - W (secs (prev_time e - start_time e)) * W x).
+
+(** "progress has been seen": a sample was accepted after the last (re)start.  [record] moves
+    [prev_time] past [start_time] exactly when it accepts a sample; every restart makes them equal. *)
+Definition progress_seen {F} (e : est F) : Prop := (start_time e < prev_time e)%N.
+
+(** the stall discount of steady progress: with A = W(last sample - restart), w = W(now - last
+    sample) a steady stream at rate r is reported as r * steady_discount A w *)
+Definition steady_discount (A w : R) : R :=
+  1 - ((1 - w) / (1 - A * w)) * ((1 - w) / (1 - A * w)).
+
+(** all reported (position, instant) pairs lie on the line pos = r * t + c *)
+Definition on_line (r c : R) (p t : N) : Prop := IZR (Z.of_N p) = r * secs t + c.
+Definition ev_on_line (r c : R) (x : ev) : Prop := on_line r c (ev_pos x) (ev_time x).
+
+(** translation of the positions *)
+Definition est_shift {F} (p : N) (e : est F) : est F :=
+  mkEst (sm e) (dsm e) (prev_steps e + p)%N (prev_time e) (start_time e).
+Definition shift_ev (p : N) (x : ev) : ev :=
+  match x with ERec n t => ERec (n + p) t | ERst t q => ERst t (q + p) end.
+
+(** ** Histories of ProgressBar calls *)
+Definition clock_step (o : eop) (now : N) : N :=
+  match o with Adv ns => wadd64 now ns | _ => now end.
+
+Section RunGeneric.
+  Variable A : arith.
+  (** the state and the clock after a history (first components of [bar_run]) *)
+  Fixpoint run_state (ops : list eop) (now : N) (b : bar (T A)) : bar (T A) * N :=
+    match ops with
+    | [] => (b, now)
+    | o :: r => run_state r (clock_step o now) (bar_step A o now b)
+    end.
+
+  (** two bars that differ at most in what their estimators have learned *)
+  Definition same_but_est (b1 b2 : bar (T A)) : Prop :=
+    b_pos b1 = b_pos b2 /\ b_len b1 = b_len b2 /\ b_done b1 = b_done b2 /\
+    b_started b1 = b_started b2 /\ b_lim b1 = b_lim b2.
+End RunGeneric.
+
+(** the clock does not wrap around u64 nanoseconds (584 years) during the history *)
+Fixpoint no_wrap (ops : list eop) (now : N) : Prop :=
+  match ops with
+  | [] => True
+  | o :: r => match o with Adv ns => (now + ns < U64)%N | _ => True end /\ no_wrap r (clock_step o now)
+  end.
+
+(** the estimator events a call produces *)
+Definition bar_evs_step (o : eop) (now : N) (b : bar R) : list ev :=
+  match o with
+  | Adv _ | Query | Finish | Abandon => []
+  | SetPos p => if fst (lim_allow now (b_lim b)) then [ERec p now] else []
+  | Inc d => if fst (lim_allow now (b_lim b)) then [ERec (wadd64 (b_pos b) d) now] else []
+  | Dec d => if fst (lim_allow now (b_lim b)) then [ERec (wsub64 (b_pos b) d) now] else []
+  | UpdPos p => [ERec p now]
+  | Tick | SetLen _ | UnsetLen => [ERec (b_pos b) now]
+  | ResetEta | ResetElapsed => [ERst now (b_pos b)]
+  | ResetAll => [ERst now 0%N]
+  end.
+
+Fixpoint bar_evs (ops : list eop) (now : N) (b : bar R) : list ev :=
+  match ops with
+  | [] => []
+  | o :: r => bar_evs_step o now b ++ bar_evs r (clock_step o now) (bar_step Rar o now b)
+  end.
+
+(** the (position, instant) pairs a user can see: the position right after every call that can
+    reach the estimator (everything except clock advances, queries, finish, abandon), whether or
+    not the position limiter lets it through *)
+Definition reaches_est (o : eop) : bool :=
+  match o with Adv _ | Query | Finish | Abandon => false | _ => true end.
+Fixpoint bar_points (ops : list eop) (now : N) (b : bar R) : list (N * N) :=
+  match ops with
+  | [] => []
+  | o :: r =>
+      (if reaches_est o then [(b_pos (bar_step Rar o now b), now)] else [])
+      ++ bar_points r (clock_step o now) (bar_step Rar o now b)
+  end.
+
+(** invariant of the bar under every call *)
+Definition BInv (now : N) (b : bar R) : Prop :=
+  wf (b_est b) /\ J_nonneg (b_est b) /\ (prev_time (b_est b) <= now)%N /\
+  (b_started b <= start_time (b_est b))%N.
